@@ -1,7 +1,7 @@
 (* Properties/C12.v — Only the matching response is accepted over UDP. *)
-From RsdnsModel Require Import Base Cursor Names Labels Header Tracker RData Reader Client.
+From RsdnsModel Require Import Base Cursor Names Labels Header Tracker RData Reader Client Timed.
 From RsdnsModel.Spec Require Import NameText WireName.
-From RsdnsModel.Proofs Require Import NameOrder ClientProofs MessageRT AcceptComplete TimedProofs.
+From RsdnsModel.Proofs Require Import NameOrder ClientProofs MessageRT AcceptComplete TimedProofs TimedGeneral.
 Open Scope N_scope.
 
 (* [std] selects the leaves translated from the blocking client or from the async template.
@@ -77,3 +77,12 @@ Example C12_filter_example :
   accept_datagram true 4660 [x61] 28 1 example_msg = Ok None /\
   accept_datagram false 4660 [x61] 1 3 example_msg = Ok None.
 Proof. vm_compute. repeat split. Qed.
+
+(* OVER TIME, IN EVERY WORLD (Timed.v: any arrivals in any order, any lateness of timers, any CPU
+   time; all four clients): what a UDP exchange returns is a datagram of the socket queue that the
+   filter accepts, with its flags, byte for byte; every datagram in front of it in the queue was
+   rejected (and skipped without failing the query); what stood behind it is left in the queue *)
+Theorem C12_first_match_over_time : forall std smol q lifetime qt jit proc queue s d fl t rest,
+  exchange_of std smol q lifetime qt jit proc queue = (s, Ok (d, fl), t, rest) ->
+  exists pre ta, queue = pre ++ (ta, d) :: rest /\ Forall (rejected_by std q) pre /\ filter_of std q d = Ok (Some fl).
+Proof. exact exchange_first_match. Qed.
